@@ -796,6 +796,24 @@ class Machine:
         gs = self.world.call_subst(fn.name, sty)
         if gs:
             subst = dict(subst or {}); subst.update(gs)
+        # type parameters of the fn item itself, bound from the printed generic arguments of the call (`f::<A, B>`)
+        fg = self.world.fn_generics(fn.name)
+        if fg:
+            p = path.strip()
+            if p.endswith(">"):
+                i, d = -1, 0
+                for j in range(len(p) - 1, -1, -1):
+                    ch = p[j]
+                    if ch == ">" and (j == 0 or p[j - 1] not in "-="): d += 1
+                    elif ch == "<":
+                        d -= 1
+                        if d == 0:
+                            i = j; break
+                if i >= 2 and p[i - 2:i] == "::":
+                    targs = [a.strip() for a in split_top(p[i + 1:-1]) if not a.strip().startswith("'")]
+                    bind = {f: a for f, a in zip(fg, targs) if a and a != f and not a.startswith("{") and not re.fullmatch(r"[A-Z]\w{0,2}", a)}
+                    if bind:
+                        subst = dict(subst or {}); subst.update(bind)
         return self.run_fn(fn, args, subst)
 
     def resolve_item(self, path):
@@ -814,6 +832,15 @@ class Machine:
             n = self.mod.lookup(strip_generics(p))       # `f<generics>::{closure#0}` of a generic free function
             if n: return n
         idx = self.world.impl_index()
+        if "<impl " in p and not p.startswith("<"):
+            # `module::<impl Type<..>>::method<G>::{closure#0}` (how closure types name an inherent method's closure)
+            segs = split_top(p.replace("::", "\x00"), "\x00")
+            for i, seg in enumerate(segs[:-1]):
+                if seg.startswith("<impl ") and seg.endswith(">"):
+                    tyb = base_name(seg[6:-1].replace("\x00", "::"))
+                    rest = "::".join(y for y in (strip_generics(x.replace("\x00", "::")) for x in segs[i + 1:]) if y)
+                    c = idx.get((tyb, None, rest))
+                    if c: return c[0]
         if p.startswith("<"):
             i = find_as(p)
             if i < 0: return None
